@@ -90,7 +90,7 @@ DETECTION = ["sideloader", "hmm_detection"]
 
 REQUIRED = (
     [f"op:bytes:{m}" for m in MODULES] + [f"nonempty:{m}" for m in MODULES]
-    + ["glue:reuse-with-limit", "guard:results-file:schema", "op:record-features", "op:second-cycle", "op:predicted-areas", "op:reused-object",
+    + ["op:module-not-enabled-on-reuse", "glue:reuse-with-limit", "guard:results-file:schema", "op:record-features", "op:second-cycle", "op:predicted-areas", "op:reused-object",
        "shape:protocluster-over-origin", "shape:sideloaded-area-over-origin", "shape:cross-cds-module",
        "shape:double-carrier-module", "shape:nested-subtype", "shape:split-tta-codon", "shape:tta-skipped-low-gc",
        "shape:gc-equals-threshold", "shape:fungal-multipliers", "shape:hmmer-boundary-hit",
@@ -708,6 +708,36 @@ def run_case(ctx, case) -> None:
             if sorted(view_c) != sorted(view_prev):
                 ctx.violate("record-features-identical", dict(facts0, cycle="strip-and-reuse",
                                                               **diff_views(view_prev, view_c)), case)
+
+    # ---- a reuse run in which one module is not switched on (the option that enables it is not repeated): its saved
+    #      results are still regenerated and carried into the new results -------------------------------------
+    off = ("full_hmmer", "tta", "sideloader", "cluster_hmmer")[zlib.crc32(repr(case["opts"]).encode()) % 4]
+    if off in saved_prev:
+        record_d = C.build_record(case)
+        apply_options(case, record_d, all_enabled_modules=[mod for short, mod in MODULES.items() if short != off])
+        previous = {MODULES[short].__name__: AJ.loads(text) for short, text in saved_prev.items()}
+        try:
+            full_d = run_flow(case, record_d, previous)
+        except Exception as err:  # pylint: disable=broad-except
+            ctx.violate("reload-crash", dict(facts0, cycle="module-not-enabled", **crash_module(err)), case)
+            full_d = None
+        if full_d is not None:
+            ok, saved_d = ctx.guard("save-crash", case, save, full_d)
+            # (only where the module itself takes its saved results back under these options: TTA, for one, discards
+            # them when the GC content sits on the threshold and then has to run again)
+            probe = C.build_record(case)
+            try:
+                taken_back = MODULES[off].regenerate_previous_results(AJ.loads(saved_prev[off]), probe, get_config())
+            except Exception:  # pylint: disable=broad-except
+                taken_back = None
+            if ok and taken_back is None:
+                ctx.count("note:module-not-enabled-and-results-not-taken-back")
+            elif ok:
+                ctx.count("op:module-not-enabled-on-reuse")
+                if saved_d.get(off) != saved_prev[off]:
+                    ctx.violate("saved-results-of-a-module-not-enabled-are-carried-over",
+                                dict(facts0, module=off, present=off in saved_d), case)
+        apply_options(case, record_d)
 
     # ---- guards --------------------------------------------------------------------------------
     check_guards(ctx, case, saved_a, record_last, facts0)
